@@ -215,7 +215,7 @@ class Array:
         return i
 
     # ---- running
-    def cmd(self, name, *args, variant="plain", env=None, shim=None, timeout=120,
+    def cmd(self, name, *args, variant="plain", env=None, shim=None, timeout=60,
             stdin=None, conf=None, base_opts=True, strace=None, binary=None):
         """Run `snapraid <name> args`. shim = dict(plan=..., time=..., log=True, count=False)."""
         self.logn += 1
